@@ -16,7 +16,7 @@ type (
 	Locker    = sync.Locker
 )
 
-func NewCond(l Locker) *Cond   { return sync.NewCond(l) }
+func NewCond(l Locker) *Cond { return sync.NewCond(l) }
 
 // Hooks are installed by the checker. With nil hooks the pool is a plain LIFO stack.
 var (
